@@ -544,7 +544,9 @@ fn counts(tier: &str, quick: u64, thorough: u64) -> u64 {
 fn random_message_input(rng: &mut Rng) -> Vec<u8> {
     let base = if rng.chance(2, 3) {
         let maxavps = rng.range(0, 6) as usize;
-        enc_control(&gen_control(rng, maxavps, 40))
+        // mostly small AVPs; regularly ones that need the high bits of the 10-bit length
+        let maxvar = *rng.pick(&[24usize, 40, 40, 300, 600, 1017]);
+        enc_control(&gen_control(rng, maxavps, maxvar))
     } else {
         enc_data_from_value(&gen_data(rng, 80), rng)
     };
@@ -606,7 +608,11 @@ fn random_avp_list(rng: &mut Rng, max: usize) -> Vec<u8> {
 
 pub fn random_record(rng: &mut Rng) -> Vec<u8> {
     match rng.below(16) {
-        0..=6 => enc_avp(&gen_avp(rng, 24)),
+        0..=5 => enc_avp(&gen_avp(rng, 24)),
+        6 => {
+            let maxvar = *rng.pick(&[250usize, 251, 300, 506, 507, 1017]);
+            enc_avp(&gen_avp(rng, maxvar))
+        }
         7 => {
             // M clear / reserved bits set: ignored on input
             let a = gen_avp(rng, 16);
@@ -755,6 +761,7 @@ pub fn gen_main(args: &[String]) -> i32 {
         "flags" => crate::gen2::suite_flags(&mut out, tier, &mut rng),
         "fault" => crate::gen2::suite_fault(&mut out, tier, &mut rng),
         "threads" => crate::gen2::suite_threads(&mut out, tier, &mut rng),
+        "decode_big" => crate::gen2::suite_decode_big(&mut out, tier, &mut rng),
         "ignored" => crate::gen2::suite_ignored(&mut out, tier, &mut rng),
         "reveal_plain" => crate::gen2::suite_reveal_plain(&mut out, tier, &mut rng),
         "ctl_records" => crate::gen2::suite_ctl_records(&mut out, tier, &mut rng),
